@@ -109,7 +109,7 @@ PROPS["C10"] = {
          "timeout": 3000},
     ],
     "negative": ["c10::c10_negative_twin"],
-    "bounds": "every history of k = 2 and 3 (thorough 4) operations, each chosen symbolically from 10 operation kinds {clone, "
+    "bounds": "every history of k = 2 and 3 (thorough 4) operations, each chosen symbolically from 11 operation kinds {clone, clone_from, "
               "take, drop, transpose both ways, swap, CArcSome clone, into_arc + from Option<Arc>, into_opaque, opaque clone, "
               "opaque drop}, on a pool of 2 typed handle slots + 1 opaque slot sharing one allocation, observed through a "
               "retained std Arc's strong_count and the payload's drop counter; symbolic payload value; both drop orders",
